@@ -48,6 +48,15 @@ class Ctx:
         self.extract_info = info
         self.extra = {}
 
+    @property
+    def dsn(self):
+        """The normalised view of the dropshot crate: Option/Result combinators rewritten into their defining match
+        with the closure bodies spliced in (engine._desugar_combinators).  Built on first use."""
+        if getattr(self, "_dsn", None) is None:
+            d, _ = extract.ensure_facts(self.features)
+            self._dsn = Facts(os.path.join(d, "dropshot.json"), desugar=True)
+        return self._dsn
+
     # ------------------------------------------------------------------ rule API
     def rule(self, rid, statement, floor=1):
         self.rules[rid] = statement
